@@ -170,11 +170,8 @@ fn check_c13(cases: &[Case], results: &[Option<RunResult>]) -> Vec<Violation> {
             if ra.outcome != rb.outcome {
                 let kinds_differ = ra.outcome.is_ok() != rb.outcome.is_ok();
                 let doma = dom_of(ra);
-                let struck = cases[b].spec.cfg.strike != 2 && has_element(&doma, &["s", "del"]);
                 let known = if kinds_differ && (cases[b].slice == "comment" || cases[b].slice == "span_wrap") {
                     Some("short_split_min_width")
-                } else if struck && cases[b].slice == "ws_subst" {
-                    Some("strikeout_marks_whitespace")
                 } else if cases[b].slice == "span_wrap" && has_element(&doma, &["sup"]) {
                     Some("sup_digits_wrapped")
                 } else {
@@ -349,7 +346,7 @@ fn check_c15(cases: &[Case], results: &[Option<RunResult>]) -> Vec<Violation> {
                 (Some(x), Some(y)) => {
                     let del: String = x.chars().filter(|c| *c != '\u{336}').collect();
                     if &del != y {
-                        v.push(viol(b, "unicode_strikeout(false) is not the output with U+0336 deleted", String::new(), Some("strikeout_marks_whitespace")));
+                        v.push(viol(b, "unicode_strikeout(false) is not the output with U+0336 deleted", format!("{:?} vs {:?}", del, y), None));
                     }
                 }
                 _ => {
@@ -409,7 +406,7 @@ fn gen_c08(tier: &str, rng: &mut Rng) -> Vec<Case> {
     let mut cases = Vec::new();
     for _ in 0..n {
         let tables = rng.chance(1, 3);
-        let o = GenOpts { tables: if tables { 1 } else { 0 }, nested_tables: tables, links: true, ids: false, imgs: false, sup: false, strike: true, br: true, dl: true, pre: false, max_blocks: 6, ..Default::default() };
+        let o = GenOpts { tables: if tables { 1 } else { 0 }, nested_tables: tables, links: true, odd_links: true, ids: false, imgs: false, sup: false, strike: true, br: true, dl: true, pre: false, max_blocks: 6, ..Default::default() };
         let (html, _) = gen_doc(rng, o);
         let mut cfg = Cfg { deco: *rng.pick(&[0u8, 1, 2, 3]), ..Default::default() };
         cfg.footnotes = *rng.pick(&[1u8, 1, 2, 0]);
@@ -479,7 +476,25 @@ fn check_c08(cases: &[Case], results: &[Option<RunResult>]) -> Vec<Violation> {
             }
             continue;
         }
-        let known = if nested { Some("nested_link_numbering") } else { None };
+        // a link whose content has no text but is not "shallow empty" (markup around nothing or
+        // around whitespace) is still rendered as a link: recorded finding
+        let mut empty_markup = false;
+        walk(&dom, &mut |n, _| {
+            if n.is("a") && n.attr("href").is_some() {
+                fn has_text2(n: &DNode) -> bool {
+                    match n {
+                        DNode::Text(t) => !t.trim().is_empty(),
+                        DNode::El { html: true, name, .. } if name == "img" => true,
+                        DNode::El { kids, .. } => kids.iter().any(has_text2),
+                        _ => false,
+                    }
+                }
+                if !has_text2(n) && n.kids().iter().any(|k| matches!(k, DNode::El { .. })) {
+                    empty_markup = true;
+                }
+            }
+        });
+        let known = if nested { Some("nested_link_numbering") } else if empty_markup { Some("empty_link_with_markup") } else { None };
         if links.is_empty() {
             if fstart.is_some() {
                 v.push(viol(i, "footnote list without links", String::new(), known));
@@ -1133,6 +1148,17 @@ fn gen_c03(tier: &str, rng: &mut Rng) -> Vec<Case> {
         let id = cases.len();
         // the labelled model route (2) gives provenance for the decorated configurations
         cases.push(mk_case(id, 1, cfg, w, bytes, Some(2), g(""), if tables { "tables" } else { "flow" }));
+    }
+    // tiny tables at narrow widths, with and without borders (the stacked / side-by-side window)
+    let nt = if tier == "thorough" { 20000 } else { 1500 };
+    for _ in 0..nt {
+        let (html, _) = crate::props5::tiny_table(rng);
+        let mut cfg = Cfg { deco: *rng.pick(&[3u8, 3, 0, 2]), ..Default::default() };
+        cfg.no_borders = rng.chance(1, 2);
+        cfg.strike = 2;
+        let w = rng.range(1, 12);
+        let id = cases.len();
+        cases.push(mk_case(id, 1, cfg, w, html.into_bytes(), Some(2), g(""), "tiny_tables"));
     }
     cases
 }
